@@ -102,6 +102,20 @@ fn main() {
     let prof = Profile::for_prop(arg(&args, "--profile").as_deref().unwrap_or(&prop));
     let cfg = cfg_for(&prop, &exclude);
     match cmd {
+        "run" if prop == "C14" => std::process::exit(run14(&args, seed, &build)),
+        "replay" if prop == "C14" => {
+            let file = arg(&args, "--file").expect("--file");
+            let rf: itv_core::pretty::PrettyReplay = serde_json::from_str(&std::fs::read_to_string(&file).expect("read replay")).expect("parse replay");
+            let o = itv_core::pretty::eval(&rf.case, false);
+            match o.failure {
+                Some(f) => {
+                    println!("  FAIL {}: {}", f.sig, f.msg);
+                    println!("REPLAY-FAILS property=C14 sig={} file={file}", f.sig);
+                    std::process::exit(1);
+                }
+                None => println!("REPLAY-PASSES property=C14 file={file}"),
+            }
+        }
         "run" => std::process::exit(run(&args, &prop, seed, &build, prof, cfg)),
         "replay" => {
             let file = arg(&args, "--file").expect("--file");
@@ -327,3 +341,92 @@ fn expected_classes(prop: &str) -> Vec<String> {
 
 #[allow(dead_code)]
 fn unused(_: Op) {}
+
+fn run14(args: &[String], seed: u64, build: &str) -> i32 {
+    use itv_core::pretty::*;
+    let t0 = Instant::now();
+    let tier = arg(args, "--tier").unwrap_or_else(|| "quick".into());
+    let workers: u64 = arg(args, "--workers").and_then(|s| s.parse().ok()).unwrap_or(16);
+    let out_path = arg(args, "--out").unwrap_or_else(|| format!("/verif/target/partial-C14-{build}.json"));
+    let (cases, max_nodes) = if tier == "thorough" { (300_000u64, 28usize) } else { (6_000u64, 20usize) };
+    let mut found: Option<(PrettyCase, itv_core::world::Failure)> = None;
+    let mut evals = 0u64;
+    // replay tier
+    let mut replayed = 0;
+    if let Ok(rd) = std::fs::read_dir("/verif/regressions/C14") {
+        let mut files: Vec<_> = rd.filter_map(|e| e.ok()).map(|e| e.path()).filter(|p| p.extension().map_or(false, |x| x == "json")).collect();
+        files.sort();
+        for f in files {
+            let Ok(txt) = std::fs::read_to_string(&f) else { continue };
+            let Ok(rf) = serde_json::from_str::<PrettyReplay>(&txt) else { continue };
+            replayed += 1;
+            let o = eval(&rf.case, false);
+            evals += o.evals;
+            if let (Some(fl), None) = (o.failure, &found) {
+                found = Some((rf.case.clone(), fl));
+            }
+        }
+    }
+    let stop = Arc::new(AtomicBool::new(false));
+    let results: Mutex<Vec<(u64, (PrettyStats, Option<(PrettyCase, itv_core::world::Failure)>))>> = Mutex::new(Vec::new());
+    if found.is_none() {
+        std::thread::scope(|s| {
+            for w in 0..workers {
+                let (stop, results) = (stop.clone(), &results);
+                s.spawn(move || {
+                    itv_core::silence_panics();
+                    let r = pretty_worker(seed, w, cases / workers, max_nodes, &stop);
+                    results.lock().unwrap().push((w, r));
+                });
+            }
+        });
+    }
+    let mut v = results.into_inner().unwrap();
+    v.sort_by_key(|x| x.0);
+    let mut nt = std::collections::HashSet::new();
+    let mut samples = Vec::new();
+    let (mut ncases, mut docs, mut ml) = (0u64, 0u64, 0u64);
+    let mut hist: BTreeMap<usize, u64> = BTreeMap::new();
+    for (_, (st, f)) in v {
+        ncases += st.cases;
+        evals += st.evals;
+        docs += st.docs;
+        ml += st.multiline_docs;
+        nt.extend(st.nt);
+        for (k, c) in st.nodes_hist {
+            *hist.entry(k).or_default() += c;
+        }
+        for s in st.samples {
+            if samples.len() < 5 {
+                samples.push(s);
+            }
+        }
+        if found.is_none() {
+            found = f;
+        }
+    }
+    let mut code = 0;
+    let mut viol = serde_json::Value::Null;
+    if let Some((case, f)) = &found {
+        let dir = "/verif/replays/C14";
+        std::fs::create_dir_all(dir).ok();
+        let path = format!("{dir}/{:016x}-{build}.json", itv_core::world::fnv(&f.sig));
+        let rf = PrettyReplay { property: "C14".into(), sig: f.sig.clone(), message: f.msg.clone(), seed, build: build.into(), case: case.clone(), note: String::new() };
+        std::fs::write(&path, serde_json::to_string_pretty(&rf).unwrap()).expect("write replay");
+        println!("VIOLATION property=C14 replay={path}");
+        println!("  sig: {}", f.sig);
+        println!("  {}", f.msg.replace('\n', "\n  "));
+        viol = json!({"sig": f.sig, "msg": f.msg, "replay": path});
+        code = 1;
+    }
+    let partial = json!({
+        "property_id": "C14", "tier": tier, "build": build, "seed": seed,
+        "evaluations": evals, "distinct_nontrivial": nt.len(), "cases": ncases,
+        "engines": {"replay": {"files": replayed}, "random": {"cases": ncases, "workers": workers, "max_nodes": max_nodes}},
+        "features": {"payloads": docs, "payloads_with_a_multi_line_rendering": ml},
+        "max_live_hist": hist, "samples": samples, "violation": viol, "wall_s": t0.elapsed().as_secs_f64(),
+    });
+    std::fs::write(&out_path, serde_json::to_string_pretty(&partial).unwrap()).expect("write partial");
+    println!("itv C14 {tier} {build}: {evals} evaluations (start node x mode), {} distinct non-trivial, {ncases} documents, {:.1}s", nt.len(), t0.elapsed().as_secs_f64());
+    code
+}
